@@ -384,6 +384,46 @@ func main() {
 			t.Outcome("delivered-as-model")
 		})
 
+		// The application replaces Reader.Source between two calls, exactly when the old source is
+		// used up at a frame boundary (the buffered reader the handshake handed back is drained and
+		// reading continues on the connection itself): the stream is the same stream.
+		r.Part("E12-source-replaced-at-a-frame-boundary", func(t *explore.T) {
+			all := collect(t.Pick(3, 4), smallCtl)
+			swap := []drivers.Driver{drivers.ReaderLoop(7), drivers.ReaderLoop(1), drivers.ReaderLoop(512), drivers.ReaderLazyHandler(0), drivers.ReaderContinuationHandler(1)}
+			t.Par(len(all), func(i int) {
+				st := all[i]
+				data, ends := streams.Wire(st.frames)
+				for bi := 0; bi < len(ends)-1; bi++ {
+					at := ends[bi]
+					for _, d := range swap {
+						at, d := at, d
+						t.Do(func() string {
+							return fmt.Sprintf("%s %s driver=%s Source replaced between two calls once the first source is used up at offset %d", st.side, streams.Describe(st.frames), d.Name, at)
+						}, func() *explore.Fail {
+							a, b := env.NewSrc(data[:at]), env.NewSrc(data[at:])
+							swapped := false
+							var res drivers.Result
+							d.Run(a, st.side, drivers.Cfg{BetweenCalls: func(rd *wsutil.Reader) {
+								if !swapped && a.Off == len(a.Data) {
+									rd.Source = b
+									swapped = true
+								}
+							}}, &res)
+							if !swapped {
+								return explore.Failf("first-source-not-used-up:"+d.Name, "consumed %d of %d, err=%v", a.Off, len(a.Data), res.Err)
+							}
+							if f := judge(d, st, &res, b); f != nil {
+								f.Sig = "source-replaced-at-a-frame-boundary:" + f.Sig
+								return f
+							}
+							return nil
+						})
+					}
+				}
+			})
+			t.Outcome("delivered-as-model")
+		})
+
 		// With the text check switched on, every stream whose control frames carry payloads that
 		// are not UTF-8 (they are opaque application data): the check is about text messages only,
 		// so everything is delivered as the model says - also by a loop that takes single-frame
